@@ -31,15 +31,29 @@ pub struct CorridorSpec {
     /// declare the two tracks of siding stage `k` mutually exclusive (lockout) — models a
     /// siding whose clearance points foul the main; symmetric declaration
     pub lockout_stage: Option<usize>,
+    /// a branch line leaving the main line at the east end of single-track stage `at`
+    /// (Y-junction); its own stages run west -> east to a second eastern terminal
+    #[serde(default)]
+    pub branch: Option<BranchSpec>,
+}
+
+#[derive(Serialize, Deserialize, Clone, Debug, PartialEq)]
+pub struct BranchSpec {
+    pub at: usize,
+    pub stages: Vec<StageSpec>,
 }
 
 #[derive(Clone, Debug)]
 pub struct Corridor {
     pub links: Vec<Link>,
-    /// forward link index of (stage, track 0 main / 1 side)
+    /// forward link index of (stage, track 0 main / 1 side); branch stages follow the main ones
     pub fwd: Vec<Vec<u32>>,
     pub rev: Vec<Vec<u32>>,
     pub n_phys: usize,
+    /// number of main-line stages (fwd[..n_main] main line, fwd[n_main..] branch)
+    pub n_main: usize,
+    /// segment spec per link index (both directions)
+    pub seg_of_link: Vec<Option<SegSpec>>,
 }
 
 fn link_geom(seg: &SegSpec, e0: f64, rise: f64, reverse: bool) -> (Vec<Elev>, Vec<Heading>, SpeedSet) {
@@ -73,12 +87,16 @@ impl CorridorSpec {
     pub fn total_main_length(&self) -> f64 {
         self.stages.iter().map(|s| s.main.length).sum()
     }
+    pub fn all_stages(&self) -> Vec<&StageSpec> {
+        self.stages.iter().chain(self.branch.iter().flat_map(|b| b.stages.iter())).collect()
+    }
     pub fn build(&self) -> Corridor {
         let n = self.stages.len();
-        // physical segments in order: stage 0 main, stage 0 side?, stage 1 main, ...
+        let all = self.all_stages();
+        // physical segments in order: stage 0 main, stage 0 side?, stage 1 main, ...; branch last
         let mut fwd: Vec<Vec<u32>> = vec![];
         let mut k = 0u32;
-        for s in &self.stages {
+        for s in &all {
             let mut v = vec![];
             k += 1;
             v.push(k);
@@ -91,9 +109,15 @@ impl CorridorSpec {
         let p = k;
         let rev: Vec<Vec<u32>> = fwd.iter().map(|v| v.iter().map(|i| i + p).collect()).collect();
         let mut links: Vec<Link> = vec![Link::default(); 2 * p as usize + 1];
+        let mut seg_of_link: Vec<Option<SegSpec>> = vec![None; 2 * p as usize + 1];
         let li = |i: u32| LinkIdx::new(i);
         let mut e0 = 100.0;
-        for (si, s) in self.stages.iter().enumerate() {
+        // elevation at the junction, where the branch starts
+        let e_junction: f64 = 100.0 + self.branch.as_ref().map(|b| self.stages[..=b.at].iter().map(|s| s.rise).sum::<f64>()).unwrap_or(0.0);
+        for (si, s) in all.iter().enumerate() {
+            if si == n {
+                e0 = e_junction;
+            }
             for (t, seg) in std::iter::once(&s.main).chain(s.side.iter()).enumerate() {
                 for reverse in [false, true] {
                     let idx = if reverse { rev[si][t] } else { fwd[si][t] };
@@ -105,14 +129,16 @@ impl CorridorSpec {
                     l.elevs = elevs;
                     l.headings = headings;
                     l.speed_set = Some(speed_set);
+                    seg_of_link[idx as usize] = Some(seg.clone());
                 }
             }
             e0 += s.rise;
         }
-        // connections
-        for si in 0..n {
-            // forward: stage si -> si+1
-            if si + 1 < n {
+        // connections: consecutive stages of the main line, and of the branch
+        let n_all = all.len();
+        for si in 0..n_all {
+            // forward: stage si -> si+1 (not across the main-line / branch seam)
+            if si + 1 < n_all && si + 1 != n {
                 let (a, b) = (&fwd[si], &fwd[si + 1]);
                 for x in a {
                     links[*x as usize].idx_next = li(b[0]);
@@ -142,6 +168,19 @@ impl CorridorSpec {
                 }
             }
         }
+        // Y-junction: east end of main stage `at` also leads to the first branch stage
+        if let Some(b) = &self.branch {
+            if n_all > n {
+                let a = fwd[b.at][0];
+                let ar = rev[b.at][0];
+                let bf = fwd[n][0];
+                let br = rev[n][0];
+                links[a as usize].idx_next_alt = li(bf);
+                links[bf as usize].idx_prev = li(a);
+                links[br as usize].idx_next = li(ar);
+                links[ar as usize].idx_prev_alt = li(br);
+            }
+        }
         if let Some(k) = self.lockout_stage {
             if k < n && fwd[k].len() == 2 {
                 let (m, s) = (fwd[k][0], fwd[k][1]);
@@ -153,7 +192,7 @@ impl CorridorSpec {
                 links[sr as usize].link_idxs_lockout = vec![li(m), li(mr)];
             }
         }
-        Corridor { links, fwd, rev, n_phys: p as usize }
+        Corridor { links, fwd, rev, n_phys: p as usize, n_main: n, seg_of_link }
     }
 }
 
@@ -165,11 +204,12 @@ pub struct CorridorOpts {
     pub min_terminal: f64,
     pub p_yard: f64,
     pub p_lockout: f64,
+    pub p_branch: f64,
 }
 
 impl Default for CorridorOpts {
     fn default() -> Self {
-        Self { max_stages: 7, min_seg: 1500.0, max_seg: 20000.0, min_terminal: 2500.0, p_yard: 0.7, p_lockout: 0.0 }
+        Self { max_stages: 7, min_seg: 1500.0, max_seg: 20000.0, min_terminal: 2500.0, p_yard: 0.7, p_lockout: 0.0, p_branch: 0.0 }
     }
 }
 
@@ -211,5 +251,31 @@ pub fn gen_corridor(g: &mut Gen, o: &CorridorOpts) -> CorridorSpec {
     }
     let sidings: Vec<usize> = stages.iter().enumerate().filter(|(_, s)| s.side.is_some()).map(|(i, _)| i).collect();
     let lockout_stage = if !sidings.is_empty() && g.bool(o.p_lockout) { Some(sidings[g.idx(sidings.len())]) } else { None };
-    CorridorSpec { stages, lockout_stage }
+    // Y-junction between two consecutive single-track stages (no coincident switch points)
+    let spots: Vec<usize> = (0..stages.len().saturating_sub(1)).filter(|i| stages[*i].side.is_none() && stages[*i + 1].side.is_none()).collect();
+    let branch = if o.p_branch > 0.0 && !spots.is_empty() && g.bool(o.p_branch) {
+        let at = spots[g.idx(spots.len())];
+        let nb = g.usize(1, 2);
+        let mut bs = vec![];
+        for i in 0..nb {
+            let last = i + 1 == nb;
+            let lo = if last { o.min_terminal } else { o.min_seg };
+            let main = gen_seg(g, lo, o.max_seg.max(lo * 1.5), 10.0);
+            // first branch stage single (the junction is its west end); the last may be a yard
+            let side = if last && i > 0 && g.bool(o.p_yard) {
+                let mut sd = gen_seg(g, lo, (main.length * 1.3).max(lo * 1.2), 7.5);
+                sd.length = sd.length.max(lo);
+                Some(sd)
+            } else {
+                None
+            };
+            let max_rise = 0.008 * main.length.min(side.as_ref().map(|x| x.length).unwrap_or(main.length));
+            let rise = if g.bool(0.3) { 0.0 } else { (g.f64(-max_rise, max_rise) * 10.0).round() / 10.0 };
+            bs.push(StageSpec { main, side, rise });
+        }
+        Some(BranchSpec { at, stages: bs })
+    } else {
+        None
+    };
+    CorridorSpec { stages, lockout_stage, branch }
 }
